@@ -31,3 +31,11 @@ add("C17", ["joypad_events"], "exploration",
     "Random walks over the (8 buttons x 2 select bits) state space with external press/release events, select writes and drawn collection points, on the real Joypad directly and through the bus/IO path; P1 & 0x3F after every action and the request latch at every collection point are compared with RefJoypad. The evidence reports how many of the 20480 transitions were taken (all, in the quick tier).",
     "Trusts RefJoypad (from the statement). Sampling of walks; the full transition relation is reached but interleavings of collection points are sampled.",
     DST + ": external-event schedules vs reference button-matrix model", "DESIGN.md section 4 C17")
+add("C10", ["bus_history"], "exploration",
+    "Seeded histories of byte/word reads and writes, fetch-view requests, elapsed time, OAM DMA starts, bank-register writes and joypad events on a core built from a generated cartridge of every supported type and RAM size, compared with an independent RefBus (memory map + timer/LCD/joypad/DMA models): probe sweep (aliases under every single-bit stride, region edges, drawn sample) after every write, all 65536 addresses every 64 operations, fetch view vs data reads, and 'a storage write changes nothing else' checked even at addresses whose value the statement leaves open.",
+    "Trusts RefBus and the device models it embeds (RefTimer, RefLcd, RefJoypad, RefMbc). Addresses/values are sampled (boundary-biased); not every (write, probe) pair of the 2^32 is tried.",
+    DST + ": access histories with device time, DMA and bank switches vs reference bus model", "DESIGN.md section 4 C10")
+add("C16", ["dma_batches"], "exploration",
+    "All 256 source pages round-robin x seeded timed histories (writes into source/OAM during the transfer, bank switches under a banked source, restarts at drawn progress) under three batch partitions on the real MemoryAreas; OAM vs RefBus after every machine cycle (P4) and gap, all other memory digests unchanged by elapsed time, engine progress = min(160, cycles), replicas agree.",
+    "Trusts RefBus's DMA rule (byte n copied at machine cycle n from the map as it stands). OAM bytes copied from sources whose read value the statement leaves open are not compared.",
+    DST + ": batch-partition schedules with mid-transfer mutations vs reference DMA", "DESIGN.md section 4 C16")
